@@ -182,6 +182,8 @@ def m_change_enumerator_value(prog, rng):
     k = rng.randrange(len(t2.enumerators))
     used = {v for _n, v in t2.enumerators}
     nv = t2.enumerators[k][1] + 1000
+    if nv >= 2 ** 63:
+        nv = t2.enumerators[k][1] - 1000
     while nv in used:
         nv += 1
     nm = t2.enumerators[k][0]
@@ -391,6 +393,8 @@ def h_append_enumerator(prog, rng):
     q = prog.clone()
     t2 = q.find_type(t.name)
     mx = max(v for _n, v in t2.enumerators)
+    if mx >= 2 ** 63 - 1:
+        return None
     nm = "E_%s_NEW%d" % (q.nonce.upper(), rng.randrange(1000))
     t2.enumerators.append((nm, mx + 1))
     return q, Expect("append-enumerator", affected=[u.name for u in users], type_name=t.key(), entity=nm)
